@@ -20,6 +20,7 @@ use radix_engine::blueprints::pool::v1::constants::*;
 use radix_engine::blueprints::resource::*;
 use radix_engine::system::system_db_reader::SystemDatabaseReader;
 use radix_engine::transaction::*;
+use radix_engine_interface::blueprints::package::*;
 use radix_engine_interface::blueprints::pool::*;
 use radix_engine_interface::blueprints::resource::*;
 use radix_engine_interface::prelude::*;
@@ -289,6 +290,13 @@ pub enum Meta {
     CreateN { tracked: bool, minted: u64 },
     MintN { idx: usize, upto: u64 },
     Pool { res: Vec<usize> },
+    /// boundary script: a script fungible (slot name, divisibility, tracked)
+    Script(&'static str, u8, bool),
+    /// boundary script: a script non-fungible (slot name, tracked, ids minted)
+    ScriptN(&'static str, bool, u64),
+    ScriptPkg,
+    ScriptComp(&'static str),
+    ScriptRoleRes,
 }
 
 #[derive(Clone, Debug)]
@@ -318,6 +326,7 @@ pub struct World {
     pub round: u64,
     pub max_fres: usize,
     pub max_nres: usize,
+    pub script: Script,
 }
 
 fn all_roles_f() -> FungibleResourceRoles {
@@ -369,8 +378,9 @@ impl World {
             stake_unit: vinfo.stake_unit_resource,
             claim_nft: vinfo.claim_nft,
             round: 1,
-            max_fres: 5,
-            max_nres: 3,
+            max_fres: 9,
+            max_nres: 6,
+            script: Script::default(),
         }
     }
 
@@ -432,6 +442,34 @@ impl World {
             }
             Meta::MintN { idx, upto } => {
                 self.nres[*idx].next_id = self.nres[*idx].next_id.max(*upto);
+            }
+            Meta::Script(_, div, tracked) => {
+                for r in c.new_resource_addresses() {
+                    let f = FRes { addr: *r, div: *div, tracked: *tracked };
+                    self.fres.push(f.clone());
+                    self.script.f.push(f);
+                }
+            }
+            Meta::ScriptN(_, tracked, minted) => {
+                for r in c.new_resource_addresses() {
+                    let n = NRes { addr: *r, tracked: *tracked, next_id: *minted + 20 };
+                    self.nres.push(n.clone());
+                    self.script.n.push(n);
+                }
+            }
+            Meta::ScriptPkg => {
+                self.script.pkg = c.new_package_addresses().first().cloned();
+            }
+            Meta::ScriptComp(which) => {
+                if *which == "R" {
+                    self.script.rcomp = c.new_component_addresses().first().cloned();
+                } else {
+                    self.script.locker = c.new_component_addresses().first().cloned();
+                    self.script.locker_badge = c.new_resource_addresses().first().cloned();
+                }
+            }
+            Meta::ScriptRoleRes => {
+                self.script.role_res = c.new_resource_addresses().first().cloned();
             }
             Meta::Pool { res } => {
                 let unit = c.new_resource_addresses()[0];
@@ -1117,4 +1155,613 @@ pub fn rewards_vault(db: &InMemorySubstateDatabase) -> NodeId {
         .expect("validator rewards")
         .fully_update_and_into_latest_version();
     rewards.rewards_vault.0 .0
+}
+
+// ------------------------------------------------------------------------------------------------
+// deterministic boundary family (identical for every seed; executed before the random stream)
+// ------------------------------------------------------------------------------------------------
+//
+// Every comparison / rare branch of the modelled resource code is hit on both sides and at
+// equality: check_mint_amount (negative, finer than the divisibility, == 2^152 limit, one step
+// above), take_by_amount (== balance, one step above / below, zero, from an empty vault), put
+// (empty bucket, first deposit = new vault, existing vault, zero-balance vault), burn (bucket,
+// vault, zero, everything, over), recall (zero, exact, over, empty vault, then burn), supply tracking
+// on and off for each, non-fungibles (empty mint, existing id, burnt id, mint+burn in one
+// transaction, take by ids / by amount at count-1/count/count+1/fraction, last id of a vault, all
+// ids), fee locks (plain, contingent on success and on failure, zero, two locks where only the last
+// pays, split payment, exact balance, one atto over, rejected), royalties (package + component,
+// failed transaction, claim), freeze flags, staking (claim too early / after the delay), pools
+// (redeem everything), epoch change, and the object shapes C05 cares about (owned vaults inside
+// key-value entries: account, locker, access controller; identity; validator; role and metadata
+// updates; non-fungible data updates; data holding a reference to an internal node).
+
+const ROYALTY_WASM: &[u8] = include_bytes!("../assets/c03/royalty.wasm");
+const ROYALTY_RPD: &[u8] = include_bytes!("../assets/c03/royalty.rpd");
+
+#[derive(Debug, Clone, ScryptoSbor, ManifestSbor)]
+pub struct NameData {
+    pub name: String,
+}
+impl NonFungibleData for NameData {
+    const MUTABLE_FIELDS: &'static [&'static str] = &["name"];
+}
+#[derive(Debug, Clone, ScryptoSbor, ManifestSbor)]
+pub struct RefData {
+    pub target: InternalAddress,
+}
+impl NonFungibleData for RefData {
+    const MUTABLE_FIELDS: &'static [&'static str] = &[];
+}
+
+#[derive(Clone, Debug, Default)]
+pub struct Script {
+    /// A = divisibility 18 tracked, B = divisibility 2 untracked, C = divisibility 0 tracked
+    pub f: Vec<FRes>,
+    /// T = tracked, U = untracked, W = with mutable NameData
+    pub n: Vec<NRes>,
+    pub pkg: Option<PackageAddress>,
+    pub rcomp: Option<ComponentAddress>,
+    pub locker: Option<ComponentAddress>,
+    pub locker_badge: Option<ResourceAddress>,
+    pub role_res: Option<ResourceAddress>,
+}
+
+fn limit() -> BigInt {
+    BigInt::from(2).pow(152)
+}
+
+pub fn boundary_plan() -> Vec<(&'static str, usize)> {
+    let mut p: Vec<(&'static str, usize)> = Vec::new();
+    for r in 0..3 {
+        p.push(("create_f_initial", r));
+    }
+    for c in ["create_f_none", "create_f_zero", "create_f_at_limit", "create_f_over_limit", "create_f_bad_div"] {
+        p.push((c, 0));
+    }
+    for r in 0..3 {
+        for c in ["mint_zero", "mint_one_step", "mint_at_limit", "mint_over_limit", "mint_negative"] {
+            p.push((c, r));
+        }
+        if r > 0 {
+            p.push(("mint_substep", r));
+        }
+    }
+    for r in 0..3 {
+        for c in ["take_zero_deposit_new_vault", "take_one_step", "take_over_by_one_step", "take_negative"] {
+            p.push((c, r));
+        }
+        if r > 0 {
+            p.push(("take_substep", r));
+        }
+        for c in ["take_under_by_one_step", "take_exact_balance_new_vault", "take_from_empty", "take_zero_from_empty", "deposit_into_zero_balance_vault"] {
+            p.push((c, r));
+        }
+    }
+    for r in 0..3 {
+        for c in ["burn_bucket_one_step", "burn_vault_one_step", "burn_zero", "burn_over", "burn_vault_all", "mint_regular"] {
+            p.push((c, r));
+        }
+    }
+    for r in 0..2 {
+        for c in ["recall_zero", "recall_over", "recall_exact", "recall_zero_from_empty", "recall_then_burn"] {
+            p.push((c, r));
+        }
+    }
+    for c in [
+        "nf_create_initial", "nf_create_none", "nf_create_named", "nf_mint_empty", "nf_mint_one", "nf_mint_existing", "nf_burn_one", "nf_remint_burnt",
+        "nf_mint_burn_same_tx", "nf_remint_after_same_tx", "nf_take_ids_one_new_vault", "nf_take_ids_missing", "nf_take_amount_zero", "nf_take_amount_one",
+        "nf_take_amount_fraction", "nf_take_amount_over", "nf_take_amount_all", "nf_deposit_back", "nf_burn_last_id", "nf_recall_last_id", "nf_recall_then_burn",
+        "nf_burn_all", "nf_untracked_mint", "nf_untracked_burn", "nf_data_update", "nf_data_internal_ref",
+    ] {
+        p.push((c, 0));
+    }
+    for c in [
+        "fee_account_plain", "fee_contingent_success", "fee_contingent_failure", "fee_two_locks_last_pays", "fee_split_payment", "fee_lock_zero",
+        "fee_lock_exact_balance", "fee_lock_over_balance", "fee_reject_insufficient", "fee_failure_plain",
+    ] {
+        p.push((c, 0));
+    }
+    for c in ["royalty_publish", "royalty_instantiate", "royalty_paid", "royalty_free", "royalty_failed_tx", "royalty_usd", "royalty_claim"] {
+        p.push((c, 0));
+    }
+    for c in ["freeze_fund", "frozen_withdraw_fails", "unfreeze_then_withdraw", "frozen_deposit_fails", "frozen_burn_fails", "unfreeze_all"] {
+        p.push((c, 0));
+    }
+    for c in ["stake", "unstake_half", "claim_too_early", "round", "round", "claim_after_delay", "unstake_all"] {
+        p.push((c, 0));
+    }
+    for c in ["pool_one_create", "pool_one_contribute", "pool_one_redeem_all", "pool_two_create", "pool_two_contribute", "pool_two_redeem_half"] {
+        p.push((c, 0));
+    }
+    for c in [
+        "create_access_controller", "create_identity", "locker_instantiate", "locker_store", "locker_claim", "metadata_global_ref", "role_res_create", "role_update",
+        "create_validator",
+    ] {
+        p.push((c, 0));
+    }
+    p
+}
+
+impl World {
+    fn sb(&self) -> ManifestBuilder {
+        ManifestBuilder::new().lock_fee_from_faucet()
+    }
+    fn sf(&self, r: usize) -> FRes {
+        self.script.f[r].clone()
+    }
+    fn at_limit(div: u8) -> BigInt {
+        let st = Self::step_of(div);
+        limit() / &st * &st
+    }
+    fn stx(label: &'static str, b: ManifestBuilder, signers: Vec<usize>, meta: Meta, expect_fail: bool) -> Tx {
+        Self::user(label, b, signers, meta, expect_fail)
+    }
+
+    /// The k-th transaction of the deterministic boundary family (None when k is past the end or
+    /// the step is not applicable in the current state).
+    pub fn boundary_step(&mut self, k: usize) -> Option<(&'static str, Tx)> {
+        let plan = boundary_plan();
+        let (class, r) = *plan.get(k)?;
+        let a0 = self.accts[0].addr;
+        let a1 = self.accts[1].addr;
+        let a2 = self.accts[2].addr;
+        let a3 = self.accts[3].addr;
+        let zero = BigInt::from(0);
+        let tx = match class {
+            // ------------------------------------------------------------- create fungible
+            "create_f_initial" => {
+                let (div, tracked) = [(18u8, true), (2, false), (0, true)][r];
+                let b = self.sb().create_fungible_resource(OwnerRole::None, tracked, div, all_roles_f(), metadata!(), Some(Decimal::from(1000))).try_deposit_entire_worktop_or_abort(a0, None);
+                Self::stx(class, b, vec![], Meta::Script(["A", "B", "C"][r], div, tracked), false)
+            }
+            "create_f_none" => {
+                let b = self.sb().create_fungible_resource(OwnerRole::None, true, 18, all_roles_f(), metadata!(), None);
+                Self::stx(class, b, vec![], Meta::None, false)
+            }
+            "create_f_zero" => {
+                let b = self.sb().create_fungible_resource(OwnerRole::None, true, 18, all_roles_f(), metadata!(), Some(Decimal::ZERO)).try_deposit_entire_worktop_or_abort(a0, None);
+                Self::stx(class, b, vec![], Meta::None, false)
+            }
+            "create_f_at_limit" => {
+                let b = self.sb().create_fungible_resource(OwnerRole::None, true, 18, all_roles_f(), metadata!(), Some(dec_of(&limit()))).try_deposit_entire_worktop_or_abort(a3, None);
+                Self::stx(class, b, vec![], Meta::None, false)
+            }
+            "create_f_over_limit" => {
+                let b = self.sb().create_fungible_resource(OwnerRole::None, true, 18, all_roles_f(), metadata!(), Some(dec_of(&(limit() + 1)))).try_deposit_entire_worktop_or_abort(a3, None);
+                Self::stx(class, b, vec![], Meta::None, true)
+            }
+            "create_f_bad_div" => {
+                let b = self.sb().create_fungible_resource(OwnerRole::None, true, 19, all_roles_f(), metadata!(), None);
+                Self::stx(class, b, vec![], Meta::None, true)
+            }
+            // ------------------------------------------------------------- mint
+            "mint_zero" | "mint_one_step" | "mint_at_limit" | "mint_over_limit" | "mint_negative" | "mint_substep" | "mint_regular" => {
+                let f = self.sf(r);
+                let st = Self::step_of(f.div);
+                let (amt, bad) = match class {
+                    "mint_zero" => (zero.clone(), false),
+                    "mint_one_step" => (st.clone(), false),
+                    "mint_at_limit" => (Self::at_limit(f.div), false),
+                    "mint_over_limit" => (Self::at_limit(f.div) + &st, true),
+                    "mint_negative" => (-st.clone(), true),
+                    "mint_substep" => (&st / 10, true),
+                    _ => (BigInt::from(500) * pow10(18), false),
+                };
+                // the limit-sized mints go to account 3 so that account 0 keeps small balances
+                let to = if class == "mint_at_limit" { a3 } else { a0 };
+                let b = self.sb().mint_fungible(f.addr, dec_of(&amt)).try_deposit_entire_worktop_or_abort(to, None);
+                Self::stx(class, b, vec![], Meta::None, bad)
+            }
+            // ------------------------------------------------------------- take / put
+            "take_zero_deposit_new_vault" | "take_one_step" | "take_over_by_one_step" | "take_negative" | "take_substep" | "take_under_by_one_step" => {
+                let f = self.sf(r);
+                let st = Self::step_of(f.div);
+                let bal = self.balance(0, f.addr);
+                let (amt, bad) = match class {
+                    "take_zero_deposit_new_vault" => (zero.clone(), false),
+                    "take_one_step" => (st.clone(), false),
+                    "take_over_by_one_step" => (&bal + &st, true),
+                    "take_negative" => (-st.clone(), true),
+                    "take_substep" => (&st / 10, true),
+                    _ => (&bal - &st, false),
+                };
+                let to = if class == "take_under_by_one_step" { a2 } else { a1 };
+                let b = self.sb().withdraw_from_account(a0, f.addr, dec_of(&amt)).try_deposit_entire_worktop_or_abort(to, None);
+                Self::stx(class, b, vec![0], Meta::None, bad)
+            }
+            "take_exact_balance_new_vault" => {
+                // account 0 holds exactly one step after take_under_by_one_step; everything goes to account 3's new vault
+                let f = self.sf(r);
+                let bal = self.balance(0, f.addr);
+                let b = self.sb().withdraw_from_account(a0, f.addr, dec_of(&bal)).try_deposit_entire_worktop_or_abort(if r == 0 { a2 } else { a3 }, None);
+                Self::stx(class, b, vec![0], Meta::None, false)
+            }
+            "take_from_empty" => {
+                let f = self.sf(r);
+                let b = self.sb().withdraw_from_account(a0, f.addr, dec_of(&Self::step_of(f.div))).try_deposit_entire_worktop_or_abort(a1, None);
+                Self::stx(class, b, vec![0], Meta::None, true)
+            }
+            "take_zero_from_empty" => {
+                let f = self.sf(r);
+                let b = self.sb().withdraw_from_account(a0, f.addr, Decimal::ZERO).try_deposit_entire_worktop_or_abort(a1, None);
+                Self::stx(class, b, vec![0], Meta::None, false)
+            }
+            "deposit_into_zero_balance_vault" => {
+                let f = self.sf(r);
+                let bal = self.balance(2, f.addr);
+                let b = self.sb().withdraw_from_account(a2, f.addr, dec_of(&bal)).try_deposit_entire_worktop_or_abort(a0, None);
+                Self::stx(class, b, vec![2], Meta::None, false)
+            }
+            // ------------------------------------------------------------- burn
+            "burn_bucket_one_step" | "burn_vault_one_step" | "burn_zero" | "burn_over" | "burn_vault_all" => {
+                let f = self.sf(r);
+                let st = Self::step_of(f.div);
+                let bal = self.balance(0, f.addr);
+                let b = match class {
+                    "burn_bucket_one_step" => self.sb().withdraw_from_account(a0, f.addr, dec_of(&st)).burn_all_from_worktop(f.addr),
+                    "burn_vault_one_step" => self.sb().burn_in_account(a0, f.addr, dec_of(&st)),
+                    "burn_zero" => self.sb().burn_in_account(a0, f.addr, Decimal::ZERO),
+                    "burn_over" => self.sb().burn_in_account(a0, f.addr, dec_of(&(&bal + &st))),
+                    _ => self.sb().burn_in_account(a0, f.addr, dec_of(&bal)),
+                };
+                Self::stx(class, b, vec![0], Meta::None, class == "burn_over")
+            }
+            // ------------------------------------------------------------- recall (from account 1's vault)
+            "recall_zero" | "recall_over" | "recall_exact" | "recall_zero_from_empty" | "recall_then_burn" => {
+                let f = self.sf(r);
+                let st = Self::step_of(f.div);
+                let (holder, to) = if class == "recall_then_burn" { (3usize, a3) } else { (1usize, a3) };
+                let v = self.vault_of(holder, f.addr)?;
+                let bal = self.balance(holder, f.addr);
+                let ia = InternalAddress::new_or_panic(v.0);
+                let b = match class {
+                    "recall_zero" | "recall_zero_from_empty" => self.sb().recall(ia, Decimal::ZERO).try_deposit_entire_worktop_or_abort(to, None),
+                    "recall_over" => self.sb().recall(ia, dec_of(&(&bal + &st))).try_deposit_entire_worktop_or_abort(to, None),
+                    "recall_exact" => self.sb().recall(ia, dec_of(&bal)).try_deposit_entire_worktop_or_abort(to, None),
+                    _ => self.sb().recall(ia, dec_of(&bal.min(BigInt::from(3) * &st))).burn_all_from_worktop(f.addr),
+                };
+                Self::stx(class, b, vec![], Meta::None, class == "recall_over")
+            }
+            // ------------------------------------------------------------- non-fungibles
+            "nf_create_initial" => {
+                let entries: Vec<(NonFungibleLocalId, ())> = (1..=5u64).map(|i| (NonFungibleLocalId::integer(i), ())).collect();
+                let b = self
+                    .sb()
+                    .create_non_fungible_resource(OwnerRole::None, NonFungibleIdType::Integer, true, all_roles_n(), metadata!(), Some(entries))
+                    .try_deposit_entire_worktop_or_abort(a0, None);
+                Self::stx(class, b, vec![], Meta::ScriptN("T", true, 5), false)
+            }
+            "nf_create_none" => {
+                let b = self.sb().create_non_fungible_resource(OwnerRole::None, NonFungibleIdType::Integer, false, all_roles_n(), metadata!(), None::<Vec<(NonFungibleLocalId, ())>>);
+                Self::stx(class, b, vec![], Meta::ScriptN("U", false, 0), false)
+            }
+            "nf_create_named" => {
+                let entries = vec![(NonFungibleLocalId::integer(1), NameData { name: "one".into() })];
+                let mut roles = all_roles_n();
+                roles.non_fungible_data_update_roles = non_fungible_data_update_roles! { non_fungible_data_updater => rule!(allow_all); non_fungible_data_updater_updater => rule!(deny_all); };
+                let b = self
+                    .sb()
+                    .create_non_fungible_resource(OwnerRole::None, NonFungibleIdType::Integer, true, roles, metadata!(), Some(entries))
+                    .try_deposit_entire_worktop_or_abort(a0, None);
+                Self::stx(class, b, vec![], Meta::ScriptN("W", true, 1), false)
+            }
+            "nf_mint_empty" | "nf_mint_one" | "nf_mint_existing" | "nf_remint_burnt" | "nf_remint_after_same_tx" | "nf_mint_burn_same_tx" => {
+                let t = self.script.n.first()?.clone();
+                let ids: Vec<u64> = match class {
+                    "nf_mint_empty" => vec![],
+                    "nf_mint_one" | "nf_remint_burnt" => vec![6],
+                    "nf_mint_existing" => vec![1],
+                    _ => vec![7],
+                };
+                let entries: Vec<(NonFungibleLocalId, ())> = ids.iter().map(|i| (NonFungibleLocalId::integer(*i), ())).collect();
+                let b = self.sb().mint_non_fungible(t.addr, entries);
+                let b = if class == "nf_mint_burn_same_tx" { b.burn_all_from_worktop(t.addr) } else { b.try_deposit_entire_worktop_or_abort(a0, None) };
+                let bad = matches!(class, "nf_mint_existing" | "nf_remint_burnt" | "nf_remint_after_same_tx");
+                Self::stx(class, b, vec![], Meta::MintN { idx: self.nres.iter().position(|x| x.addr == t.addr)?, upto: 8 }, bad)
+            }
+            "nf_burn_one" => {
+                let t = self.script.n.first()?.clone();
+                let b = self.sb().burn_non_fungibles_in_account(a0, t.addr, [NonFungibleLocalId::integer(6)]);
+                Self::stx(class, b, vec![0], Meta::None, false)
+            }
+            "nf_take_ids_one_new_vault" | "nf_take_ids_missing" => {
+                let t = self.script.n.first()?.clone();
+                let id = if class == "nf_take_ids_missing" { 99 } else { 1 };
+                let b = self.sb().withdraw_non_fungibles_from_account(a0, t.addr, [NonFungibleLocalId::integer(id)]).try_deposit_entire_worktop_or_abort(a1, None);
+                Self::stx(class, b, vec![0], Meta::None, id == 99)
+            }
+            "nf_take_amount_zero" | "nf_take_amount_one" | "nf_take_amount_fraction" | "nf_take_amount_over" | "nf_take_amount_all" => {
+                let t = self.script.n.first()?.clone();
+                let cnt = self.ids_in(0, t.addr).len() as u64;
+                let (amt, bad) = match class {
+                    "nf_take_amount_zero" => (Decimal::ZERO, false),
+                    "nf_take_amount_one" => (Decimal::ONE, false),
+                    "nf_take_amount_fraction" => (dec!("1.5"), true),
+                    "nf_take_amount_over" => (Decimal::from(cnt + 1), true),
+                    _ => (Decimal::from(cnt), false),
+                };
+                let b = self.sb().withdraw_from_account(a0, t.addr, amt).try_deposit_entire_worktop_or_abort(a2, None);
+                Self::stx(class, b, vec![0], Meta::None, bad)
+            }
+            "nf_deposit_back" => {
+                let t = self.script.n.first()?.clone();
+                let ids = self.ids_in(2, t.addr);
+                let b = self.sb().withdraw_non_fungibles_from_account(a2, t.addr, ids).try_deposit_entire_worktop_or_abort(a0, None);
+                Self::stx(class, b, vec![2], Meta::None, false)
+            }
+            "nf_burn_last_id" => {
+                let t = self.script.n.first()?.clone();
+                let ids = self.ids_in(1, t.addr);
+                let b = self.sb().burn_non_fungibles_in_account(a1, t.addr, ids);
+                Self::stx(class, b, vec![1], Meta::None, false)
+            }
+            "nf_recall_last_id" | "nf_recall_then_burn" => {
+                let t = self.script.n.first()?.clone();
+                // move one id into account 1's (now empty) vault and recall it in the same transaction
+                let id = self.ids_in(0, t.addr).into_iter().next()?;
+                let v = self.vault_of(1, t.addr)?;
+                let b = self
+                    .sb()
+                    .withdraw_non_fungibles_from_account(a0, t.addr, [id.clone()])
+                    .try_deposit_entire_worktop_or_abort(a1, None)
+                    .recall_non_fungibles(InternalAddress::new_or_panic(v.0), [id]);
+                let b = if class == "nf_recall_then_burn" { b.burn_all_from_worktop(t.addr) } else { b.try_deposit_entire_worktop_or_abort(a3, None) };
+                Self::stx(class, b, vec![0], Meta::None, false)
+            }
+            "nf_burn_all" => {
+                let t = self.script.n.first()?.clone();
+                let ids = self.ids_in(0, t.addr);
+                let b = self.sb().burn_non_fungibles_in_account(a0, t.addr, ids);
+                Self::stx(class, b, vec![0], Meta::None, false)
+            }
+            "nf_untracked_mint" => {
+                let u = self.script.n.get(1)?.clone();
+                let entries: Vec<(NonFungibleLocalId, ())> = (1..=3u64).map(|i| (NonFungibleLocalId::integer(i), ())).collect();
+                let b = self.sb().mint_non_fungible(u.addr, entries).try_deposit_entire_worktop_or_abort(a0, None);
+                Self::stx(class, b, vec![], Meta::MintN { idx: self.nres.iter().position(|x| x.addr == u.addr)?, upto: 4 }, false)
+            }
+            "nf_untracked_burn" => {
+                let u = self.script.n.get(1)?.clone();
+                let b = self.sb().withdraw_from_account(a0, u.addr, Decimal::from(2)).burn_all_from_worktop(u.addr);
+                Self::stx(class, b, vec![0], Meta::None, false)
+            }
+            "nf_data_update" => {
+                let w = self.script.n.get(2)?.clone();
+                let b = self.sb().update_non_fungible_data(w.addr, NonFungibleLocalId::integer(1), "name", "uno".to_string());
+                Self::stx(class, b, vec![], Meta::None, false)
+            }
+            "nf_data_internal_ref" => {
+                // data holding a reference to an internal node (a vault): must be refused, nothing stored may reference a non-global node
+                let v = self.vault_of(0, XRD)?;
+                let entries = vec![(NonFungibleLocalId::integer(1), RefData { target: InternalAddress::new_or_panic(v.0) })];
+                let b = self
+                    .sb()
+                    .create_non_fungible_resource(OwnerRole::None, NonFungibleIdType::Integer, true, all_roles_n(), metadata!(), Some(entries))
+                    .try_deposit_entire_worktop_or_abort(a0, None);
+                Self::stx(class, b, vec![], Meta::None, true)
+            }
+            // ------------------------------------------------------------- fees
+            "fee_account_plain" => Self::stx(class, ManifestBuilder::new().lock_fee(a0, dec!(10)).get_free_xrd_from_faucet().try_deposit_entire_worktop_or_abort(a0, None), vec![0], Meta::None, false),
+            "fee_contingent_success" => Self::stx(class, self.sb().lock_contingent_fee(a1, dec!(5)).get_free_xrd_from_faucet().try_deposit_entire_worktop_or_abort(a1, None), vec![1], Meta::None, false),
+            "fee_contingent_failure" => {
+                Self::stx(class, self.sb().lock_contingent_fee(a1, dec!(5)).assert_worktop_contains(XRD, dec!(1)), vec![1], Meta::None, true)
+            }
+            "fee_two_locks_last_pays" => Self::stx(class, ManifestBuilder::new().lock_fee(a0, dec!(10)).lock_fee(a1, dec!(10)).get_free_xrd_from_faucet().try_deposit_entire_worktop_or_abort(a0, None), vec![0, 1], Meta::None, false),
+            "fee_split_payment" => Self::stx(class, ManifestBuilder::new().lock_fee(a0, dec!(10)).lock_fee(a1, dec!("0.05")).get_free_xrd_from_faucet().try_deposit_entire_worktop_or_abort(a0, None), vec![0, 1], Meta::None, false),
+            "fee_lock_zero" => Self::stx(class, self.sb().lock_fee(a0, Decimal::ZERO).get_free_xrd_from_faucet().try_deposit_entire_worktop_or_abort(a0, None), vec![0], Meta::None, false),
+            "fee_lock_exact_balance" | "fee_lock_over_balance" | "fee_reject_insufficient" => {
+                let bal = self.balance(3, XRD);
+                let b = match class {
+                    "fee_lock_exact_balance" => ManifestBuilder::new().lock_fee(a3, dec_of(&bal)).get_free_xrd_from_faucet().try_deposit_entire_worktop_or_abort(a0, None),
+                    "fee_lock_over_balance" => self.sb().lock_fee(a3, dec_of(&(&bal + 1))).get_free_xrd_from_faucet().try_deposit_entire_worktop_or_abort(a0, None),
+                    _ => ManifestBuilder::new().lock_fee(a3, dec_of(&(&bal + 1))).get_free_xrd_from_faucet().try_deposit_entire_worktop_or_abort(a0, None),
+                };
+                Self::stx(class, b, vec![3], Meta::None, class != "fee_lock_exact_balance")
+            }
+            "fee_failure_plain" => Self::stx(class, self.sb().assert_worktop_contains(XRD, dec!(1)), vec![], Meta::None, true),
+            // ------------------------------------------------------------- royalties
+            "royalty_publish" => {
+                let def: PackageDefinition = manifest_decode::<ManifestPackageDefinition>(ROYALTY_RPD).ok()?.try_into_typed().ok()?;
+                let b = self.sb().publish_package_advanced(None, ROYALTY_WASM.to_vec(), def, metadata_init!(), OwnerRole::None);
+                Self::stx(class, b, vec![], Meta::ScriptPkg, false)
+            }
+            "royalty_instantiate" => {
+                let p = self.script.pkg?;
+                let b = self.sb().call_function(p, "RoyaltyTest", "create_component_with_royalty", manifest_args!(dec!(3)));
+                Self::stx(class, b, vec![], Meta::ScriptComp("R"), false)
+            }
+            "royalty_paid" | "royalty_free" | "royalty_failed_tx" | "royalty_usd" => {
+                let c = self.script.rcomp?;
+                let m = match class {
+                    "royalty_paid" => "paid_method",
+                    "royalty_free" => "free_method",
+                    "royalty_failed_tx" => "paid_method_panic",
+                    _ => "paid_method_usd",
+                };
+                Self::stx(class, self.sb().call_method(c, m, manifest_args!()), vec![], Meta::None, class == "royalty_failed_tx")
+            }
+            "royalty_claim" => {
+                let c = self.script.rcomp?;
+                Self::stx(class, self.sb().claim_component_royalties(c).try_deposit_entire_worktop_or_abort(a0, None), vec![], Meta::None, false)
+            }
+            // ------------------------------------------------------------- freeze (resource A, account 1)
+            "freeze_fund" => {
+                let f = self.sf(0);
+                Self::stx(class, self.sb().mint_fungible(f.addr, dec!(10)).try_deposit_entire_worktop_or_abort(a1, None), vec![], Meta::None, false)
+            }
+            "frozen_withdraw_fails" | "unfreeze_then_withdraw" | "frozen_deposit_fails" | "frozen_burn_fails" | "unfreeze_all" => {
+                let f = self.sf(0);
+                let v = InternalAddress::new_or_panic(self.vault_of(1, f.addr)?.0);
+                let fr = |b: ManifestBuilder, fl: VaultFreezeFlags| b.call_direct_access_method(v, VAULT_FREEZE_IDENT, VaultFreezeInput { to_freeze: fl });
+                let un = |b: ManifestBuilder, fl: VaultFreezeFlags| b.call_direct_access_method(v, VAULT_UNFREEZE_IDENT, VaultUnfreezeInput { to_unfreeze: fl });
+                let b = match class {
+                    "frozen_withdraw_fails" => fr(self.sb(), VaultFreezeFlags::WITHDRAW).withdraw_from_account(a1, f.addr, dec!(1)).try_deposit_entire_worktop_or_abort(a0, None),
+                    "unfreeze_then_withdraw" => un(fr(self.sb(), VaultFreezeFlags::WITHDRAW), VaultFreezeFlags::WITHDRAW).withdraw_from_account(a1, f.addr, dec!(1)).try_deposit_entire_worktop_or_abort(a0, None),
+                    "frozen_deposit_fails" => fr(self.sb(), VaultFreezeFlags::DEPOSIT).mint_fungible(f.addr, dec!(1)).try_deposit_entire_worktop_or_abort(a1, None),
+                    "frozen_burn_fails" => fr(self.sb(), VaultFreezeFlags::BURN).burn_in_account(a1, f.addr, dec!(1)),
+                    _ => un(self.sb(), VaultFreezeFlags::WITHDRAW | VaultFreezeFlags::DEPOSIT | VaultFreezeFlags::BURN),
+                };
+                Self::stx(class, b, vec![1], Meta::None, class.ends_with("_fails"))
+            }
+            // ------------------------------------------------------------- staking / epochs
+            "stake" => Self::stx(
+                class,
+                self.sb().withdraw_from_account(a0, XRD, dec!(100)).take_all_from_worktop(XRD, "s").stake_validator(self.validator, "s").try_deposit_entire_worktop_or_abort(a0, None),
+                vec![0],
+                Meta::None,
+                false,
+            ),
+            "unstake_half" | "unstake_all" => {
+                let bal = self.balance(0, self.stake_unit);
+                let amt = if class == "unstake_half" { &bal / 2 } else { bal };
+                Self::stx(
+                    class,
+                    self.sb().withdraw_from_account(a0, self.stake_unit, dec_of(&amt)).take_all_from_worktop(self.stake_unit, "u").unstake_validator(self.validator, "u").try_deposit_entire_worktop_or_abort(a0, None),
+                    vec![0],
+                    Meta::None,
+                    false,
+                )
+            }
+            "claim_too_early" | "claim_after_delay" => {
+                let id = self.ids_in(0, self.claim_nft).into_iter().next()?;
+                Self::stx(
+                    class,
+                    self.sb().withdraw_non_fungibles_from_account(a0, self.claim_nft, [id]).take_all_from_worktop(self.claim_nft, "c").claim_xrd(self.validator, "c").try_deposit_entire_worktop_or_abort(a0, None),
+                    vec![0],
+                    Meta::None,
+                    class == "claim_too_early",
+                )
+            }
+            "round" => {
+                let st = self.ledger.get_consensus_manager_state();
+                let ts = self.ledger.get_current_proposer_timestamp_ms() + 60_000;
+                let m = ManifestBuilder::new_system_v1()
+                    .call_method(
+                        CONSENSUS_MANAGER,
+                        CONSENSUS_MANAGER_NEXT_ROUND_IDENT,
+                        ConsensusManagerNextRoundInput {
+                            round: Round::of(st.round.number() + 1),
+                            proposer_timestamp_ms: ts,
+                            leader_proposal_history: LeaderProposalHistory { gap_round_leaders: vec![], current_leader: 0, is_fallback: false },
+                        },
+                    )
+                    .build();
+                Tx { label: "round", body: Body::System(m), meta: Meta::None, expect_fail: false }
+            }
+            // ------------------------------------------------------------- pools
+            "pool_one_create" => {
+                let i = self.fres.iter().position(|x| x.addr == self.sf(0).addr)?;
+                let b = self.sb().call_function(
+                    POOL_PACKAGE,
+                    ONE_RESOURCE_POOL_BLUEPRINT_IDENT,
+                    ONE_RESOURCE_POOL_INSTANTIATE_IDENT,
+                    OneResourcePoolInstantiateManifestInput { resource_address: self.sf(0).addr.into(), pool_manager_rule: rule!(allow_all).into(), owner_role: OwnerRole::None.into(), address_reservation: None },
+                );
+                Self::stx(class, b, vec![], Meta::Pool { res: vec![i] }, false)
+            }
+            "pool_two_create" => {
+                let i = self.fres.iter().position(|x| x.addr == self.sf(0).addr)?;
+                let j = self.fres.iter().position(|x| x.addr == self.sf(2).addr)?;
+                let b = self.sb().call_function(
+                    POOL_PACKAGE,
+                    TWO_RESOURCE_POOL_BLUEPRINT_IDENT,
+                    TWO_RESOURCE_POOL_INSTANTIATE_IDENT,
+                    TwoResourcePoolInstantiateManifestInput {
+                        resource_addresses: (self.sf(0).addr.into(), self.sf(2).addr.into()),
+                        pool_manager_rule: rule!(allow_all).into(),
+                        owner_role: OwnerRole::None.into(),
+                        address_reservation: None,
+                    },
+                );
+                Self::stx(class, b, vec![], Meta::Pool { res: vec![i, j] }, false)
+            }
+            "pool_one_contribute" | "pool_two_contribute" => {
+                let two = class == "pool_two_contribute";
+                let p = self.pools.iter().find(|p| p.res.len() == if two { 2 } else { 1 })?.clone();
+                let mut b = self.sb();
+                for (k, i) in p.res.iter().enumerate() {
+                    let f = self.fres[*i].clone();
+                    b = b.withdraw_from_account(a0, f.addr, dec!(10)).take_all_from_worktop(f.addr, format!("c{}", k));
+                }
+                let b = if two {
+                    b.with_name_lookup(|b, l| b.call_method(p.addr, "contribute", manifest_args!((l.bucket("c0"), l.bucket("c1")))))
+                } else {
+                    b.with_name_lookup(|b, l| b.call_method(p.addr, "contribute", manifest_args!(l.bucket("c0"))))
+                };
+                Self::stx(class, b.try_deposit_entire_worktop_or_abort(a0, None), vec![0], Meta::None, false)
+            }
+            "pool_one_redeem_all" | "pool_two_redeem_half" => {
+                let two = class == "pool_two_redeem_half";
+                let p = self.pools.iter().find(|p| p.res.len() == if two { 2 } else { 1 })?.clone();
+                let bal = self.balance(0, p.unit);
+                let amt = if two { &bal / 2 } else { bal };
+                let b = self
+                    .sb()
+                    .withdraw_from_account(a0, p.unit, dec_of(&amt))
+                    .take_all_from_worktop(p.unit, "u")
+                    .with_name_lookup(|b, l| b.call_method(p.addr, "redeem", manifest_args!(l.bucket("u"))))
+                    .try_deposit_entire_worktop_or_abort(a0, None);
+                Self::stx(class, b, vec![0], Meta::None, false)
+            }
+            // ------------------------------------------------------------- object shapes (C05)
+            "create_access_controller" => Self::stx(
+                class,
+                self.sb().withdraw_from_account(a0, XRD, dec!(10)).take_all_from_worktop(XRD, "asset").create_access_controller("asset", rule!(allow_all), rule!(allow_all), rule!(allow_all), Some(1)),
+                vec![0],
+                Meta::None,
+                false,
+            ),
+            "create_identity" => Self::stx(class, self.sb().create_identity().try_deposit_entire_worktop_or_abort(a0, None), vec![], Meta::None, false),
+            "locker_instantiate" => Self::stx(
+                class,
+                self.sb().call_function(LOCKER_PACKAGE, "AccountLocker", "instantiate_simple", manifest_args!(true)).try_deposit_entire_worktop_or_abort(a0, None),
+                vec![],
+                Meta::ScriptComp("L"),
+                false,
+            ),
+            "locker_store" => {
+                let l = self.script.locker?;
+                let badge = self.script.locker_badge?;
+                let b = self
+                    .sb()
+                    .create_proof_from_account_of_amount(a0, badge, dec!(1))
+                    .withdraw_from_account(a0, XRD, dec!(7))
+                    .take_all_from_worktop(XRD, "x")
+                    .with_name_lookup(|b, lk| b.call_method(l, "store", manifest_args!(a1, lk.bucket("x"), false)));
+                Self::stx(class, b, vec![0], Meta::None, false)
+            }
+            "locker_claim" => {
+                let l = self.script.locker?;
+                let b = self.sb().call_method(l, "claim", manifest_args!(a1, XRD, dec!(7))).try_deposit_entire_worktop_or_abort(a1, None);
+                Self::stx(class, b, vec![1], Meta::None, false)
+            }
+            "metadata_global_ref" => {
+                let md = metadata! { init { "owner_account" => GlobalAddress::from(a0), locked; "name" => "r".to_string(), updatable; } };
+                let b = self.sb().create_fungible_resource(OwnerRole::None, true, 18, all_roles_f(), md, Some(dec!(1))).try_deposit_entire_worktop_or_abort(a0, None);
+                Self::stx(class, b, vec![], Meta::None, false)
+            }
+            "role_res_create" => {
+                let mut roles = all_roles_f();
+                roles.mint_roles = mint_roles! { minter => rule!(allow_all); minter_updater => rule!(allow_all); };
+                let b = self.sb().create_fungible_resource(OwnerRole::None, true, 18, roles, metadata!(), None);
+                Self::stx(class, b, vec![], Meta::ScriptRoleRes, false)
+            }
+            "role_update" => {
+                let r = self.script.role_res?;
+                Self::stx(class, self.sb().set_role(r, ModuleId::Main, "minter", rule!(deny_all)), vec![], Meta::None, false)
+            }
+            "create_validator" => {
+                let key = Secp256k1PrivateKey::from_u64(777).unwrap().public_key();
+                let b = self
+                    .sb()
+                    .get_free_xrd_from_faucet()
+                    .take_from_worktop(XRD, *radix_engine::system::bootstrap::DEFAULT_VALIDATOR_XRD_COST, "fee")
+                    .create_validator(key, Decimal::ONE, "fee")
+                    .try_deposit_entire_worktop_or_abort(a0, None);
+                Self::stx(class, b, vec![], Meta::None, false)
+            }
+            _ => return None,
+        };
+        Some((class, tx))
+    }
 }
